@@ -7,8 +7,10 @@ Conventions of this model
 * A Go run-time panic (index out of range) is the error `Err.panic`: every slice/array access
   whose index is not a loop constant is checked.  Go's internal errors (`errInternal…`) and
   its public errors are one type, as in Go.
-* Go loops become structural recursion on a fuel argument that is large enough
-  (`Err.fuel` is returned if it ever ran out; `Props/C16` shows where it cannot).
+* Go loops become structural recursion on a fuel argument that is large enough (every iteration
+  consumes at least one bit / one code length); `Err.fuel` would be returned if it ever ran out.
+  That this never happens is checked by the differential tie (the implementation has no such
+  outcome, so any `model-fuel` line is a mismatch), not proved.
 * `cutSingleBlock`'s and `Cut`'s calls of `compress/flate` are `Spec.inflateRaw`.
 * The tables (`codeOrder`, `lBases`, …) are regenerated from flatecut.go into `Gen/C16_Tables.lean`.
 -/
